@@ -222,7 +222,10 @@ def e1_obligations(rep: Report, ctx: Ctx, select, rule_prefix=''):
 
 
 def contract_records(rep: Report, ctx: Ctx, prop):
+    """returns the number of distinct (root, variant) pairs that produced records for the property (the floor is on
+    that number: it does not depend on how many paths an implementation happens to have)"""
     n = 0
+    roots = set()
     for r in ctx.e1['roots']:
         for c in r['contracts']:
             if c['prop'] != prop and not (c['prop'] == 'C00'):
@@ -231,11 +234,14 @@ def contract_records(rep: Report, ctx: Ctx, prop):
                 # a contract that could not be evaluated: report under every property (fail closed)
                 pass
             n += 1
+            if c['prop'] == prop:
+                roots.add((r['root'], r.get('variant')))
             key = f"R-ens|{c['root']}|{c['clause']}"
             rep.ob(key, c['ok'], f"R-ens {c['root']}: {c['clause']} -- {c['detail'][:400]}", {'contract': c, 'config': ctx.cfg}, rule='R-ens')
             if c['ok'] and len(rep.samples) < 10:
                 rep.sample({'contract': key, 'status': 'holds on every exit state'})
-    return n
+    rep.extra.setdefault('contract_roots', {})[ctx.cfg] = len(roots)
+    return len(roots)
 
 
 def tier_cfgs(tier):
